@@ -129,7 +129,7 @@ def fc_snapshot(fc):
         return None, None
     folder = getattr(fc, '_folder', None)
     files = sorted(os.listdir(folder)) if folder and os.path.isdir(folder) else []
-    attrs = {k: (_ADDR.sub('', repr(v)) if k != '_folder' else (v is not None)) for k, v in sorted(vars(fc).items())}
+    attrs = {k: _ADDR.sub('', repr(v)) for k, v in sorted(vars(fc).items()) if k != '_folder'}
     ids = (id(fc.font_map), id(fc._config))
     return hashlib.sha1(repr((attrs, ids)).encode()).hexdigest()[:16], files
 
@@ -231,12 +231,14 @@ def run_step(world, step):
             world.fc = fc
     elif step['fc'] == 'shared':
         fc = world.fc
-    if step['html'] == 'shared' and step['doc'] in world.html:
-        html = world.html[step['doc']]
+    options = dict(step.get('opts', {}))
+    media = options.pop('media_type', 'print')
+    if step['html'] == 'shared' and (step['doc'], media) in world.html:
+        html = world.html[(step['doc'], media)]
     else:
-        html = HTML(string=doc['html'], base_url=base, media_type=doc.get('media', 'print'))
+        html = HTML(string=doc['html'], base_url=base, media_type=media)
         if step['html'] == 'shared':
-            world.html[step['doc']] = html
+            world.html[(step['doc'], media)] = html
     sheets = []
     for i, text in enumerate(doc.get('css', [])):
         key = (step['doc'], i)
@@ -257,7 +259,6 @@ def run_step(world, step):
     elif step['cache'] == 'disk':
         world.counter += 1
         cache = os.path.join(world.tmpdir, 'cache%d' % world.counter)
-    options = dict(step.get('opts', {}))
     if 'pdf_identifier' in options:
         options['pdf_identifier'] = options['pdf_identifier'].encode()
     if sheets:
@@ -293,10 +294,8 @@ def run_step(world, step):
             document = html.render(font_config=fc, **options)
             obs['layout'] = layout_fingerprint(document)
             obs['npages'] = len(document.pages)
-            if step.get('copy') is not None:
-                sel = [document.pages[i % len(document.pages)] for i in step['copy']] if document.pages else []
-                document = document.copy(sel)
-                obs['copy_npages'] = len(document.pages)
+            if step.get('copy_all'):
+                document = document.copy(document.pages if step['doc'] % 2 else 'all')
             ret = document.write_pdf(target, zoom=zoom, **options)
             if step.get('rewrite'):
                 # the same Document written a second time must give the same bytes
